@@ -15,6 +15,7 @@ hand-written fakes, each of which is listed in the evidence.
 """
 from __future__ import annotations
 
+import collections
 import importlib
 import importlib.abc
 import importlib.machinery
@@ -273,7 +274,7 @@ def load(patches=None):
     edgeql.Source = Source
     edgeql.NormalizedSource = type('NormalizedSource', (Source,), {})
 
-    observed = []
+    observed = collections.defaultdict(list)   # request key -> what its queries were compiled against
 
     class FakeDDL(qlast.DDLCommand):
         pass
@@ -317,7 +318,7 @@ def load(patches=None):
 
     def fake_query(ctx, ql, source=None, script_info=None):
         tx = ctx.state.current_tx()
-        observed.append((tx.get_user_schema().tag, tx.get_modaliases(), tx.get_session_config()))
+        observed[ctx.cache_key.int].append((tx.get_user_schema().tag, tx.get_modaliases(), tx.get_session_config()))
         return dbstate.NullQuery()
 
     compiler._compile_ql_query = fake_query
@@ -350,13 +351,16 @@ def load(patches=None):
         protocol_version = (3, 0)
         role_name = branch_name = None
 
-        def __init__(self, stmts, modaliases=None, session_config=None):
+        key = 7
+
+        def __init__(self, stmts, modaliases=None, session_config=None, key=7):
             self.source = Source(stmts)
             self.modaliases = modaliases
             self.session_config = session_config
+            self.key = key
 
         def get_cache_key(self):
-            return uuid.UUID(int=7)
+            return uuid.UUID(int=self.key)
 
     class CS:
         std_schema = FlatSchema('std')
